@@ -131,3 +131,297 @@ package keystore
 //@   at call utils.ZeroizeKeyPair : assert exiting
 //@   at call utils.ZeroizeSymmetricKey : assert exiting
 //@   at call keystore.GetKeyContextFromContext : assert arg[0] == key.KeyContext
+
+// ---- key ring paths of client keys (C02) ----
+// In keystore v2 the ring path is the whole binding between a client and its keys: it selects the stored object and it
+// is the context of the ring signature and of the key encryption. The path of a client's ring therefore contains the
+// client id itself - all of it, unchanged - so two different ids can never select the same ring.
+//@ func (s *ServerKeyStore) clientStorageKeyPairPath(clientID []byte) (path string)
+//@   props C02
+//@   at call filepath.Join : assert whole-client-id-in-path: len(arg[0]) == 3 && arg[0][0] == clientPrefix && arg[0][1] == string(clientID) && arg[0][2] == storageSuffix
+//@   ensures path == ret(filepath.Join)[0]
+
+//@ func (s *ServerKeyStore) clientStorageSymmetricKeyPath(clientID []byte) (path string)
+//@   props C02
+//@   at call filepath.Join : assert whole-client-id-in-path: len(arg[0]) == 3 && arg[0][0] == clientPrefix && arg[0][1] == string(clientID) && arg[0][2] == storageSymmetricSuffix
+//@   ensures path == ret(filepath.Join)[0]
+
+//@ func (s *ServerKeyStore) clientHMACKeyPath(clientID []byte) (path string)
+//@   props C02
+//@   at call filepath.Join : assert whole-client-id-in-path: len(arg[0]) == 3 && arg[0][0] == clientPrefix && arg[0][1] == string(clientID) && arg[0][2] == hmacSymmetricSuffix
+//@   ensures path == ret(filepath.Join)[0]
+
+// ---- entry points of the v2 key store (C02, C06, C15): each operation opens exactly the ring that belongs to the
+// caller's own client id (or the fixed ring of the purpose) and works on that ring and no other; readers hand back what
+// the ring reader returned, or nothing. (Generated from the uniform shape of these functions; one contract each.)
+
+//@ func (s *ServerKeyStore) GetClientIDSymmetricKeys(clientID []byte) (out [][]byte, err error)
+//@   props C02 C06
+//@   noinline *
+//@   at call ServerKeyStore.clientStorageSymmetricKeyPath : assert own-id: sameslice(arg[0], clientID)
+//@   at call MutableKeyStore.OpenKeyRing : assert own-ring: arg[0] == ret(ServerKeyStore.clientStorageSymmetricKeyPath)[0]
+//@   at call ServerKeyStore.allSymmetricKeys : assert opened-ring: arg[0] == ret(MutableKeyStore.OpenKeyRing)[0] && ret(MutableKeyStore.OpenKeyRing)[1] == nil
+//@   ensures from-that-ring: err == nil ==> sameslice(out, ret(ServerKeyStore.allSymmetricKeys)[0])
+//@   ensures nothing-on-error: err != nil ==> out == nil
+//@   ensures failure-propagates: (ret(MutableKeyStore.OpenKeyRing)[1] != nil ==> err != nil) && (called(ServerKeyStore.allSymmetricKeys) && ret(ServerKeyStore.allSymmetricKeys)[1] != nil ==> err != nil)
+
+//@ func (s *ServerKeyStore) GetClientIDSymmetricKey(clientID []byte) (out []byte, err error)
+//@   props C02 C06
+//@   noinline *
+//@   at call ServerKeyStore.clientStorageSymmetricKeyPath : assert own-id: sameslice(arg[0], clientID)
+//@   at call MutableKeyStore.OpenKeyRing : assert own-ring: arg[0] == ret(ServerKeyStore.clientStorageSymmetricKeyPath)[0]
+//@   at call ServerKeyStore.currentSymmetricKey : assert opened-ring: arg[0] == ret(MutableKeyStore.OpenKeyRing)[0] && ret(MutableKeyStore.OpenKeyRing)[1] == nil
+//@   ensures from-that-ring: err == nil ==> sameslice(out, ret(ServerKeyStore.currentSymmetricKey)[0])
+//@   ensures nothing-on-error: err != nil ==> out == nil
+//@   ensures failure-propagates: (ret(MutableKeyStore.OpenKeyRing)[1] != nil ==> err != nil) && (called(ServerKeyStore.currentSymmetricKey) && ret(ServerKeyStore.currentSymmetricKey)[1] != nil ==> err != nil)
+
+//@ func (s *ServerKeyStore) GenerateClientIDSymmetricKey(clientID []byte) (err error)
+//@   props C02 C06
+//@   noinline *
+//@   at call ServerKeyStore.clientStorageSymmetricKeyPath : assert own-id: sameslice(arg[0], clientID)
+//@   at call MutableKeyStore.OpenKeyRingRW : assert own-ring: arg[0] == ret(ServerKeyStore.clientStorageSymmetricKeyPath)[0]
+//@   at call ServerKeyStore.newCurrentSymmetricKey : assert opened-ring: arg[0] == ret(MutableKeyStore.OpenKeyRingRW)[0] && ret(MutableKeyStore.OpenKeyRingRW)[1] == nil
+//@   ensures failure-propagates: (ret(MutableKeyStore.OpenKeyRingRW)[1] != nil ==> err != nil) && (called(ServerKeyStore.newCurrentSymmetricKey) && ret(ServerKeyStore.newCurrentSymmetricKey)[1] != nil ==> err != nil)
+
+//@ func (s *ServerKeyStore) DestroyClientIDSymmetricKey(clientID []byte) (err error)
+//@   props C02 C06
+//@   noinline *
+//@   at call ServerKeyStore.clientStorageSymmetricKeyPath : assert own-id: sameslice(arg[0], clientID)
+//@   at call MutableKeyStore.OpenKeyRingRW : assert own-ring: arg[0] == ret(ServerKeyStore.clientStorageSymmetricKeyPath)[0]
+//@   at call ServerKeyStore.destroyCurrentKeyPair : assert opened-ring: arg[0] == ret(MutableKeyStore.OpenKeyRingRW)[0] && ret(MutableKeyStore.OpenKeyRingRW)[1] == nil
+//@   ensures failure-propagates: (ret(MutableKeyStore.OpenKeyRingRW)[1] != nil ==> err != nil) && (called(ServerKeyStore.destroyCurrentKeyPair) && ret(ServerKeyStore.destroyCurrentKeyPair)[0] != nil ==> err != nil)
+
+//@ func (s *ServerKeyStore) DestroyRotatedClientIDSymmetricKey(clientID []byte, index int) (err error)
+//@   props C02 C06
+//@   noinline *
+//@   at call ServerKeyStore.clientStorageSymmetricKeyPath : assert own-id: sameslice(arg[0], clientID)
+//@   at call MutableKeyStore.OpenKeyRingRW : assert own-ring: arg[0] == ret(ServerKeyStore.clientStorageSymmetricKeyPath)[0]
+//@   at call destroyRingRotatedKeyByIndex : assert opened-ring: arg[0] == ret(MutableKeyStore.OpenKeyRingRW)[0] && ret(MutableKeyStore.OpenKeyRingRW)[1] == nil && arg[1] == index
+//@   ensures failure-propagates: (ret(MutableKeyStore.OpenKeyRingRW)[1] != nil ==> err != nil) && (called(destroyRingRotatedKeyByIndex) && ret(destroyRingRotatedKeyByIndex)[0] != nil ==> err != nil)
+
+//@ func (s *ServerKeyStore) importClientIDSymmetricKey(clientID []byte, storageKey []byte) (err error)
+//@   props C02 C06
+//@   noinline *
+//@   at call ServerKeyStore.clientStorageSymmetricKeyPath : assert own-id: sameslice(arg[0], clientID)
+//@   at call MutableKeyStore.OpenKeyRingRW : assert own-ring: arg[0] == ret(ServerKeyStore.clientStorageSymmetricKeyPath)[0]
+//@   at call ServerKeyStore.addCurrentSymmetricKey : assert opened-ring: arg[0] == ret(MutableKeyStore.OpenKeyRingRW)[0] && ret(MutableKeyStore.OpenKeyRingRW)[1] == nil && sameslice(arg[1], storageKey)
+//@   ensures failure-propagates: (ret(MutableKeyStore.OpenKeyRingRW)[1] != nil ==> err != nil) && (called(ServerKeyStore.addCurrentSymmetricKey) && ret(ServerKeyStore.addCurrentSymmetricKey)[0] != nil ==> err != nil)
+
+//@ func (s *ServerKeyStore) GetClientIDEncryptionPublicKey(clientID []byte) (out *keys.PublicKey, err error)
+//@   props C02 C06
+//@   noinline *
+//@   at call ServerKeyStore.clientStorageKeyPairPath : assert own-id: sameslice(arg[0], clientID)
+//@   at call MutableKeyStore.OpenKeyRing : assert own-ring: arg[0] == ret(ServerKeyStore.clientStorageKeyPairPath)[0]
+//@   at call ServerKeyStore.currentPairPublicKey : assert opened-ring: arg[0] == ret(MutableKeyStore.OpenKeyRing)[0] && ret(MutableKeyStore.OpenKeyRing)[1] == nil
+//@   ensures from-that-ring: err == nil ==> out == ret(ServerKeyStore.currentPairPublicKey)[0]
+//@   ensures nothing-on-error: err != nil ==> out == nil
+//@   ensures failure-propagates: (ret(MutableKeyStore.OpenKeyRing)[1] != nil ==> err != nil) && (called(ServerKeyStore.currentPairPublicKey) && ret(ServerKeyStore.currentPairPublicKey)[1] != nil ==> err != nil)
+
+//@ func (s *ServerKeyStore) GetServerDecryptionPrivateKey(clientID []byte) (out *keys.PrivateKey, err error)
+//@   props C02 C06
+//@   noinline *
+//@   at call ServerKeyStore.clientStorageKeyPairPath : assert own-id: sameslice(arg[0], clientID)
+//@   at call MutableKeyStore.OpenKeyRing : assert own-ring: arg[0] == ret(ServerKeyStore.clientStorageKeyPairPath)[0]
+//@   at call ServerKeyStore.currentPairPrivateKey : assert opened-ring: arg[0] == ret(MutableKeyStore.OpenKeyRing)[0] && ret(MutableKeyStore.OpenKeyRing)[1] == nil
+//@   ensures from-that-ring: err == nil ==> out == ret(ServerKeyStore.currentPairPrivateKey)[0]
+//@   ensures nothing-on-error: err != nil ==> out == nil
+//@   ensures failure-propagates: (ret(MutableKeyStore.OpenKeyRing)[1] != nil ==> err != nil) && (called(ServerKeyStore.currentPairPrivateKey) && ret(ServerKeyStore.currentPairPrivateKey)[1] != nil ==> err != nil)
+
+//@ func (s *ServerKeyStore) GetServerDecryptionPrivateKeys(clientID []byte) (out []*keys.PrivateKey, err error)
+//@   props C02 C06
+//@   noinline *
+//@   at call ServerKeyStore.clientStorageKeyPairPath : assert own-id: sameslice(arg[0], clientID)
+//@   at call MutableKeyStore.OpenKeyRing : assert own-ring: arg[0] == ret(ServerKeyStore.clientStorageKeyPairPath)[0]
+//@   at call ServerKeyStore.allPairPrivateKeys : assert opened-ring: arg[0] == ret(MutableKeyStore.OpenKeyRing)[0] && ret(MutableKeyStore.OpenKeyRing)[1] == nil
+//@   ensures from-that-ring: err == nil ==> sameslice(out, ret(ServerKeyStore.allPairPrivateKeys)[0])
+//@   ensures nothing-on-error: err != nil ==> out == nil
+//@   ensures failure-propagates: (ret(MutableKeyStore.OpenKeyRing)[1] != nil ==> err != nil) && (called(ServerKeyStore.allPairPrivateKeys) && ret(ServerKeyStore.allPairPrivateKeys)[1] != nil ==> err != nil)
+
+//@ func (s *ServerKeyStore) GenerateDataEncryptionKeys(clientID []byte) (err error)
+//@   props C02 C06
+//@   noinline *
+//@   at call ServerKeyStore.clientStorageKeyPairPath : assert own-id: sameslice(arg[0], clientID)
+//@   at call MutableKeyStore.OpenKeyRingRW : assert own-ring: arg[0] == ret(ServerKeyStore.clientStorageKeyPairPath)[0]
+//@   at call ServerKeyStore.newCurrentKeyPair : assert opened-ring: arg[0] == ret(MutableKeyStore.OpenKeyRingRW)[0] && ret(MutableKeyStore.OpenKeyRingRW)[1] == nil
+//@   ensures failure-propagates: (ret(MutableKeyStore.OpenKeyRingRW)[1] != nil ==> err != nil) && (called(ServerKeyStore.newCurrentKeyPair) && ret(ServerKeyStore.newCurrentKeyPair)[1] != nil ==> err != nil)
+
+//@ func (s *ServerKeyStore) DestroyClientIDEncryptionKeyPair(clientID []byte) (err error)
+//@   props C02 C06
+//@   noinline *
+//@   at call ServerKeyStore.clientStorageKeyPairPath : assert own-id: sameslice(arg[0], clientID)
+//@   at call MutableKeyStore.OpenKeyRingRW : assert own-ring: arg[0] == ret(ServerKeyStore.clientStorageKeyPairPath)[0]
+//@   at call ServerKeyStore.destroyCurrentKeyPair : assert opened-ring: arg[0] == ret(MutableKeyStore.OpenKeyRingRW)[0] && ret(MutableKeyStore.OpenKeyRingRW)[1] == nil
+//@   ensures failure-propagates: (ret(MutableKeyStore.OpenKeyRingRW)[1] != nil ==> err != nil) && (called(ServerKeyStore.destroyCurrentKeyPair) && ret(ServerKeyStore.destroyCurrentKeyPair)[0] != nil ==> err != nil)
+
+//@ func (s *ServerKeyStore) DestroyRotatedClientIDEncryptionKeyPair(clientID []byte, index int) (err error)
+//@   props C02 C06
+//@   noinline *
+//@   at call ServerKeyStore.clientStorageKeyPairPath : assert own-id: sameslice(arg[0], clientID)
+//@   at call MutableKeyStore.OpenKeyRingRW : assert own-ring: arg[0] == ret(ServerKeyStore.clientStorageKeyPairPath)[0]
+//@   at call destroyRingRotatedKeyByIndex : assert opened-ring: arg[0] == ret(MutableKeyStore.OpenKeyRingRW)[0] && ret(MutableKeyStore.OpenKeyRingRW)[1] == nil && arg[1] == index
+//@   ensures failure-propagates: (ret(MutableKeyStore.OpenKeyRingRW)[1] != nil ==> err != nil) && (called(destroyRingRotatedKeyByIndex) && ret(destroyRingRotatedKeyByIndex)[0] != nil ==> err != nil)
+
+//@ func (s *ServerKeyStore) SaveDataEncryptionKeys(clientID []byte, keypair *keys.Keypair) (err error)
+//@   props C02 C06
+//@   noinline *
+//@   at call ServerKeyStore.clientStorageKeyPairPath : assert own-id: sameslice(arg[0], clientID)
+//@   at call MutableKeyStore.OpenKeyRingRW : assert own-ring: arg[0] == ret(ServerKeyStore.clientStorageKeyPairPath)[0]
+//@   at call ServerKeyStore.addCurrentKeyPair : assert opened-ring: arg[0] == ret(MutableKeyStore.OpenKeyRingRW)[0] && ret(MutableKeyStore.OpenKeyRingRW)[1] == nil && arg[1] == keypair
+//@   ensures failure-propagates: (ret(MutableKeyStore.OpenKeyRingRW)[1] != nil ==> err != nil) && (called(ServerKeyStore.addCurrentKeyPair) && ret(ServerKeyStore.addCurrentKeyPair)[0] != nil ==> err != nil)
+
+//@ func (s *ServerKeyStore) GetHMACSecretKey(clientID []byte) (out []byte, err error)
+//@   props C02 C06
+//@   noinline *
+//@   at call ServerKeyStore.clientHMACKeyPath : assert own-id: sameslice(arg[0], clientID)
+//@   at call MutableKeyStore.OpenKeyRing : assert own-ring: arg[0] == ret(ServerKeyStore.clientHMACKeyPath)[0]
+//@   at call ServerKeyStore.currentSymmetricKey : assert opened-ring: arg[0] == ret(MutableKeyStore.OpenKeyRing)[0] && ret(MutableKeyStore.OpenKeyRing)[1] == nil
+//@   ensures from-that-ring: err == nil ==> sameslice(out, ret(ServerKeyStore.currentSymmetricKey)[0])
+//@   ensures nothing-on-error: err != nil ==> out == nil
+//@   ensures failure-propagates: (ret(MutableKeyStore.OpenKeyRing)[1] != nil ==> err != nil) && (called(ServerKeyStore.currentSymmetricKey) && ret(ServerKeyStore.currentSymmetricKey)[1] != nil ==> err != nil)
+
+//@ func (s *ServerKeyStore) GenerateHmacKey(clientID []byte) (err error)
+//@   props C02 C06
+//@   noinline *
+//@   at call ServerKeyStore.clientHMACKeyPath : assert own-id: sameslice(arg[0], clientID)
+//@   at call MutableKeyStore.OpenKeyRingRW : assert own-ring: arg[0] == ret(ServerKeyStore.clientHMACKeyPath)[0]
+//@   at call ServerKeyStore.newCurrentSymmetricKey : assert opened-ring: arg[0] == ret(MutableKeyStore.OpenKeyRingRW)[0] && ret(MutableKeyStore.OpenKeyRingRW)[1] == nil
+//@   ensures failure-propagates: (ret(MutableKeyStore.OpenKeyRingRW)[1] != nil ==> err != nil) && (called(ServerKeyStore.newCurrentSymmetricKey) && ret(ServerKeyStore.newCurrentSymmetricKey)[1] != nil ==> err != nil)
+
+//@ func (s *ServerKeyStore) DestroyHmacSecretKey(clientID []byte) (err error)
+//@   props C02 C06
+//@   noinline *
+//@   at call ServerKeyStore.clientHMACKeyPath : assert own-id: sameslice(arg[0], clientID)
+//@   at call MutableKeyStore.OpenKeyRingRW : assert own-ring: arg[0] == ret(ServerKeyStore.clientHMACKeyPath)[0]
+//@   at call ServerKeyStore.destroyCurrentKeyPair : assert opened-ring: arg[0] == ret(MutableKeyStore.OpenKeyRingRW)[0] && ret(MutableKeyStore.OpenKeyRingRW)[1] == nil
+//@   ensures failure-propagates: (ret(MutableKeyStore.OpenKeyRingRW)[1] != nil ==> err != nil) && (called(ServerKeyStore.destroyCurrentKeyPair) && ret(ServerKeyStore.destroyCurrentKeyPair)[0] != nil ==> err != nil)
+
+//@ func (s *ServerKeyStore) DestroyRotatedHmacSecretKey(clientID []byte, index int) (err error)
+//@   props C02 C06
+//@   noinline *
+//@   at call ServerKeyStore.clientHMACKeyPath : assert own-id: sameslice(arg[0], clientID)
+//@   at call MutableKeyStore.OpenKeyRingRW : assert own-ring: arg[0] == ret(ServerKeyStore.clientHMACKeyPath)[0]
+//@   at call destroyRingRotatedKeyByIndex : assert opened-ring: arg[0] == ret(MutableKeyStore.OpenKeyRingRW)[0] && ret(MutableKeyStore.OpenKeyRingRW)[1] == nil && arg[1] == index
+//@   ensures failure-propagates: (ret(MutableKeyStore.OpenKeyRingRW)[1] != nil ==> err != nil) && (called(destroyRingRotatedKeyByIndex) && ret(destroyRingRotatedKeyByIndex)[0] != nil ==> err != nil)
+
+//@ func (s *ServerKeyStore) importHmacKey(clientID []byte, hmacKey []byte) (err error)
+//@   props C02 C06
+//@   noinline *
+//@   at call ServerKeyStore.clientHMACKeyPath : assert own-id: sameslice(arg[0], clientID)
+//@   at call MutableKeyStore.OpenKeyRingRW : assert own-ring: arg[0] == ret(ServerKeyStore.clientHMACKeyPath)[0]
+//@   at call ServerKeyStore.addCurrentSymmetricKey : assert opened-ring: arg[0] == ret(MutableKeyStore.OpenKeyRingRW)[0] && ret(MutableKeyStore.OpenKeyRingRW)[1] == nil && sameslice(arg[1], hmacKey)
+//@   ensures failure-propagates: (ret(MutableKeyStore.OpenKeyRingRW)[1] != nil ==> err != nil) && (called(ServerKeyStore.addCurrentSymmetricKey) && ret(ServerKeyStore.addCurrentSymmetricKey)[0] != nil ==> err != nil)
+
+//@ func (s *ServerKeyStore) GetPoisonKeyPair() (out *keys.Keypair, err error)
+//@   props C02 C06 C15
+//@   noinline *
+//@   at call MutableKeyStore.OpenKeyRingRW : assert fixed-ring: arg[0] == poisonKeyPath
+//@   at call ServerKeyStore.currentKeyPair : assert opened-ring: arg[0] == ret(MutableKeyStore.OpenKeyRingRW)[0] && ret(MutableKeyStore.OpenKeyRingRW)[1] == nil
+//@   ensures from-that-ring: err == nil ==> out == ret(ServerKeyStore.currentKeyPair)[0]
+//@   ensures nothing-on-error: err != nil ==> out == nil
+//@   ensures failure-propagates: (ret(MutableKeyStore.OpenKeyRingRW)[1] != nil ==> err != nil) && (called(ServerKeyStore.currentKeyPair) && ret(ServerKeyStore.currentKeyPair)[1] != nil ==> err != nil)
+
+//@ func (s *ServerKeyStore) GetPoisonPrivateKeys() (out []*keys.PrivateKey, err error)
+//@   props C02 C06 C15
+//@   noinline *
+//@   at call MutableKeyStore.OpenKeyRingRW : assert fixed-ring: arg[0] == poisonKeyPath
+//@   at call ServerKeyStore.allPairPrivateKeys : assert opened-ring: arg[0] == ret(MutableKeyStore.OpenKeyRingRW)[0] && ret(MutableKeyStore.OpenKeyRingRW)[1] == nil
+//@   ensures from-that-ring: err == nil ==> sameslice(out, ret(ServerKeyStore.allPairPrivateKeys)[0])
+//@   ensures nothing-on-error: err != nil ==> out == nil
+//@   ensures failure-propagates: (ret(MutableKeyStore.OpenKeyRingRW)[1] != nil ==> err != nil) && (called(ServerKeyStore.allPairPrivateKeys) && ret(ServerKeyStore.allPairPrivateKeys)[1] != nil ==> err != nil)
+
+//@ func (s *ServerKeyStore) GetPoisonSymmetricKeys() (out [][]byte, err error)
+//@   props C02 C06 C15
+//@   noinline *
+//@   at call MutableKeyStore.OpenKeyRingRW : assert fixed-ring: arg[0] == poisonSymmetricKeyPath
+//@   at call ServerKeyStore.allSymmetricKeys : assert opened-ring: arg[0] == ret(MutableKeyStore.OpenKeyRingRW)[0] && ret(MutableKeyStore.OpenKeyRingRW)[1] == nil
+//@   ensures from-that-ring: err == nil ==> sameslice(out, ret(ServerKeyStore.allSymmetricKeys)[0])
+//@   ensures nothing-on-error: err != nil ==> out == nil
+//@   ensures failure-propagates: (ret(MutableKeyStore.OpenKeyRingRW)[1] != nil ==> err != nil) && (called(ServerKeyStore.allSymmetricKeys) && ret(ServerKeyStore.allSymmetricKeys)[1] != nil ==> err != nil)
+
+//@ func (s *ServerKeyStore) GetPoisonSymmetricKey() (out []byte, err error)
+//@   props C02 C06 C15
+//@   noinline *
+//@   at call MutableKeyStore.OpenKeyRingRW : assert fixed-ring: arg[0] == poisonSymmetricKeyPath
+//@   at call ServerKeyStore.currentSymmetricKey : assert opened-ring: arg[0] == ret(MutableKeyStore.OpenKeyRingRW)[0] && ret(MutableKeyStore.OpenKeyRingRW)[1] == nil
+//@   ensures from-that-ring: err == nil ==> sameslice(out, ret(ServerKeyStore.currentSymmetricKey)[0])
+//@   ensures nothing-on-error: err != nil ==> out == nil
+//@   ensures failure-propagates: (ret(MutableKeyStore.OpenKeyRingRW)[1] != nil ==> err != nil) && (called(ServerKeyStore.currentSymmetricKey) && ret(ServerKeyStore.currentSymmetricKey)[1] != nil ==> err != nil)
+
+//@ func (s *ServerKeyStore) savePoisonKeyPair(keypair *keys.Keypair) (err error)
+//@   props C02 C06 C15
+//@   noinline *
+//@   at call MutableKeyStore.OpenKeyRingRW : assert fixed-ring: arg[0] == poisonKeyPath
+//@   at call ServerKeyStore.addCurrentKeyPair : assert opened-ring: arg[0] == ret(MutableKeyStore.OpenKeyRingRW)[0] && ret(MutableKeyStore.OpenKeyRingRW)[1] == nil && arg[1] == keypair
+//@   ensures failure-propagates: (ret(MutableKeyStore.OpenKeyRingRW)[1] != nil ==> err != nil) && (called(ServerKeyStore.addCurrentKeyPair) && ret(ServerKeyStore.addCurrentKeyPair)[0] != nil ==> err != nil)
+
+//@ func (s *ServerKeyStore) GeneratePoisonSymmetricKey() (err error)
+//@   props C02 C06 C15
+//@   noinline *
+//@   at call MutableKeyStore.OpenKeyRingRW : assert fixed-ring: arg[0] == poisonSymmetricKeyPath
+//@   at call ServerKeyStore.newCurrentSymmetricKey : assert opened-ring: arg[0] == ret(MutableKeyStore.OpenKeyRingRW)[0] && ret(MutableKeyStore.OpenKeyRingRW)[1] == nil
+//@   ensures failure-propagates: (ret(MutableKeyStore.OpenKeyRingRW)[1] != nil ==> err != nil) && (called(ServerKeyStore.newCurrentSymmetricKey) && ret(ServerKeyStore.newCurrentSymmetricKey)[1] != nil ==> err != nil)
+
+//@ func (s *ServerKeyStore) DestroyPoisonKeyPair() (err error)
+//@   props C02 C06 C15
+//@   noinline *
+//@   at call MutableKeyStore.OpenKeyRingRW : assert fixed-ring: arg[0] == poisonKeyPath
+//@   at call ServerKeyStore.destroyCurrentKeyPair : assert opened-ring: arg[0] == ret(MutableKeyStore.OpenKeyRingRW)[0] && ret(MutableKeyStore.OpenKeyRingRW)[1] == nil
+//@   ensures failure-propagates: (ret(MutableKeyStore.OpenKeyRingRW)[1] != nil ==> err != nil) && (called(ServerKeyStore.destroyCurrentKeyPair) && ret(ServerKeyStore.destroyCurrentKeyPair)[0] != nil ==> err != nil)
+
+//@ func (s *ServerKeyStore) DestroyRotatedPoisonKeyPair(index int) (err error)
+//@   props C02 C06 C15
+//@   noinline *
+//@   at call MutableKeyStore.OpenKeyRingRW : assert fixed-ring: arg[0] == poisonKeyPath
+//@   at call destroyRingRotatedKeyByIndex : assert opened-ring: arg[0] == ret(MutableKeyStore.OpenKeyRingRW)[0] && ret(MutableKeyStore.OpenKeyRingRW)[1] == nil && arg[1] == index
+//@   ensures failure-propagates: (ret(MutableKeyStore.OpenKeyRingRW)[1] != nil ==> err != nil) && (called(destroyRingRotatedKeyByIndex) && ret(destroyRingRotatedKeyByIndex)[0] != nil ==> err != nil)
+
+//@ func (s *ServerKeyStore) DestroyPoisonSymmetricKey() (err error)
+//@   props C02 C06 C15
+//@   noinline *
+//@   at call MutableKeyStore.OpenKeyRingRW : assert fixed-ring: arg[0] == poisonSymmetricKeyPath
+//@   at call ServerKeyStore.destroyCurrentKeyPair : assert opened-ring: arg[0] == ret(MutableKeyStore.OpenKeyRingRW)[0] && ret(MutableKeyStore.OpenKeyRingRW)[1] == nil
+//@   ensures failure-propagates: (ret(MutableKeyStore.OpenKeyRingRW)[1] != nil ==> err != nil) && (called(ServerKeyStore.destroyCurrentKeyPair) && ret(ServerKeyStore.destroyCurrentKeyPair)[0] != nil ==> err != nil)
+
+//@ func (s *ServerKeyStore) DestroyRotatedPoisonSymmetricKey(index int) (err error)
+//@   props C02 C06 C15
+//@   noinline *
+//@   at call MutableKeyStore.OpenKeyRingRW : assert fixed-ring: arg[0] == poisonSymmetricKeyPath
+//@   at call destroyRingRotatedKeyByIndex : assert opened-ring: arg[0] == ret(MutableKeyStore.OpenKeyRingRW)[0] && ret(MutableKeyStore.OpenKeyRingRW)[1] == nil && arg[1] == index
+//@   ensures failure-propagates: (ret(MutableKeyStore.OpenKeyRingRW)[1] != nil ==> err != nil) && (called(destroyRingRotatedKeyByIndex) && ret(destroyRingRotatedKeyByIndex)[0] != nil ==> err != nil)
+
+//@ func (s *ServerKeyStore) GeneratePoisonKeyPair() (err error)
+//@   props C02 C06 C15
+//@   noinline *
+//@   at call MutableKeyStore.OpenKeyRingRW : assert fixed-ring: arg[0] == poisonKeyPath
+//@   at call ServerKeyStore.newCurrentKeyPair : assert opened-ring: arg[0] == ret(MutableKeyStore.OpenKeyRingRW)[0] && ret(MutableKeyStore.OpenKeyRingRW)[1] == nil
+//@   ensures failure-propagates: (ret(MutableKeyStore.OpenKeyRingRW)[1] != nil ==> err != nil) && (called(ServerKeyStore.newCurrentKeyPair) && ret(ServerKeyStore.newCurrentKeyPair)[1] != nil ==> err != nil)
+
+//@ func (s *ServerKeyStore) importPoisonRecordSymmetricKey(poisonKey []byte) (err error)
+//@   props C02 C06 C15
+//@   noinline *
+//@   at call MutableKeyStore.OpenKeyRingRW : assert fixed-ring: arg[0] == poisonSymmetricKeyPath
+//@   at call ServerKeyStore.addCurrentSymmetricKey : assert opened-ring: arg[0] == ret(MutableKeyStore.OpenKeyRingRW)[0] && ret(MutableKeyStore.OpenKeyRingRW)[1] == nil && sameslice(arg[1], poisonKey)
+//@   ensures failure-propagates: (ret(MutableKeyStore.OpenKeyRingRW)[1] != nil ==> err != nil) && (called(ServerKeyStore.addCurrentSymmetricKey) && ret(ServerKeyStore.addCurrentSymmetricKey)[0] != nil ==> err != nil)
+
+//@ func (s *ServerKeyStore) GetLogSecretKey() (out []byte, err error)
+//@   props C02 C06
+//@   noinline *
+//@   at call MutableKeyStore.OpenKeyRing : assert fixed-ring: arg[0] == auditLogSymmetricKeyPath
+//@   at call ServerKeyStore.currentSymmetricKey : assert opened-ring: arg[0] == ret(MutableKeyStore.OpenKeyRing)[0] && ret(MutableKeyStore.OpenKeyRing)[1] == nil
+//@   ensures from-that-ring: err == nil ==> sameslice(out, ret(ServerKeyStore.currentSymmetricKey)[0])
+//@   ensures nothing-on-error: err != nil ==> out == nil
+//@   ensures failure-propagates: (ret(MutableKeyStore.OpenKeyRing)[1] != nil ==> err != nil) && (called(ServerKeyStore.currentSymmetricKey) && ret(ServerKeyStore.currentSymmetricKey)[1] != nil ==> err != nil)
+
+//@ func (s *ServerKeyStore) GenerateLogKey() (err error)
+//@   props C02 C06
+//@   noinline *
+//@   at call MutableKeyStore.OpenKeyRingRW : assert fixed-ring: arg[0] == auditLogSymmetricKeyPath
+//@   at call ServerKeyStore.newCurrentSymmetricKey : assert opened-ring: arg[0] == ret(MutableKeyStore.OpenKeyRingRW)[0] && ret(MutableKeyStore.OpenKeyRingRW)[1] == nil
+//@   ensures failure-propagates: (ret(MutableKeyStore.OpenKeyRingRW)[1] != nil ==> err != nil) && (called(ServerKeyStore.newCurrentSymmetricKey) && ret(ServerKeyStore.newCurrentSymmetricKey)[1] != nil ==> err != nil)
+
+//@ func (s *ServerKeyStore) importLogKey(auditLogKey []byte) (err error)
+//@   props C02 C06
+//@   noinline *
+//@   at call MutableKeyStore.OpenKeyRingRW : assert fixed-ring: arg[0] == auditLogSymmetricKeyPath
+//@   at call ServerKeyStore.addCurrentSymmetricKey : assert opened-ring: arg[0] == ret(MutableKeyStore.OpenKeyRingRW)[0] && ret(MutableKeyStore.OpenKeyRingRW)[1] == nil && sameslice(arg[1], auditLogKey)
+//@   ensures failure-propagates: (ret(MutableKeyStore.OpenKeyRingRW)[1] != nil ==> err != nil) && (called(ServerKeyStore.addCurrentSymmetricKey) && ret(ServerKeyStore.addCurrentSymmetricKey)[0] != nil ==> err != nil)
